@@ -67,8 +67,12 @@ def insert_noise(draw, root, n_min=1, n_max=6):
         if kind == "foreign-attr":
             els = _elements(root)
             el = els[draw(st.integers(0, len(els) - 1))]
-            el["a"][draw(st.sampled_from(["foo:bar", "sodipodi:nodetypes", "foo:fill"]))] = draw(st.sampled_from(["x", "cccc", "red"]))
-            foreign = True
+            if draw(st.integers(0, 2)) == 0 and "xmlns:loc" not in el["a"]:
+                el["a"]["xmlns:loc"] = "urn:example:local"  # prefix declared on the element itself
+                el["a"]["loc:note"] = draw(st.sampled_from(["x", "red"]))
+            else:
+                el["a"][draw(st.sampled_from(["foo:bar", "sodipodi:nodetypes", "foo:fill"]))] = draw(st.sampled_from(["x", "cccc", "red"]))
+                foreign = True
             labels.append("foreign-attr@" + el["tag"])
             continue
         if kind == "wrapper-g":
@@ -104,10 +108,24 @@ def insert_noise(draw, root, n_min=1, n_max=6):
             new = node(kind, c=_meta_children(draw))
             foreign = True
         elif kind == "foreign-element":
-            new = node(draw(st.sampled_from(["foo:bar", "sodipodi:namedview"])), {"id": "fe", "fill": "red"}, c=[node("rect", {"width": "50", "height": "50", "fill": "blue"})] if draw(st.booleans()) else [])
-            foreign = True
+            kids = [node("rect", {"width": "50", "height": "50", "fill": "blue"})] if draw(st.booleans()) else []
+            how = draw(st.integers(0, 2))
+            if how == 0:
+                new = node(draw(st.sampled_from(["foo:bar", "sodipodi:namedview"])), {"id": "fe", "fill": "red"}, c=kids)
+                foreign = True  # prefix declared on the root
+            elif how == 1:
+                # namespace prefix declared on the foreign element itself
+                new = node("bar:baz", {"xmlns:bar": "urn:example:bar", "bar:attr": "1", "fill": "red"}, c=[node("bar:inner", {})] if kids else [])
+            else:
+                # default namespace switched locally
+                new = node("thing", {"xmlns": "urn:example:thing", "fill": "red"}, c=[node("inner", {"width": "5"})] if kids else [])
         elif kind == "anon-symbol":
             new = node("symbol", {"viewBox": "0 0 10 10"}, c=[node("rect", {"width": "10", "height": "10", "fill": "lime"})])
+            if draw(st.booleans()):
+                # an id-less symbol nested in an id-less symbol, and one more later in the document
+                new["c"].append(node("symbol", c=[node("circle", {"r": "3"})]))
+                root["c"].append(node("symbol", {"viewBox": "0 0 4 4"}, c=[node("rect", {"width": "4", "height": "4"})]))
+                labels.append("anon-symbol-nested@svg")
         elif kind == "empty-g":
             new = node("g")
         else:
